@@ -376,16 +376,28 @@ func (ps *Points) Collapse() {
 		return
 	}
 
-	pts := make(map[string]Point)
+	// points are identified by type and key, and an empty key is the same
+	// identity as key "0"
+	type pointID struct {
+		typ string
+		key string
+	}
+
+	pts := make(map[pointID]Point)
 
 	for _, p := range *ps {
-		pA, OK := pts[p.Type+p.Key]
+		id := pointID{typ: p.Type, key: p.Key}
+		if id.key == "" {
+			id.key = "0"
+		}
+
+		pA, OK := pts[id]
 		if OK {
 			if pA.Time.Before(p.Time) || pA.Time.Equal(p.Time) {
-				pts[p.Type+p.Key] = p
+				pts[id] = p
 			}
 		} else {
-			pts[p.Type+p.Key] = p
+			pts[id] = p
 		}
 	}
 
